@@ -381,14 +381,14 @@ def kani_collect(data, out, note, units, harnesses, res, package):
             res.undecided.append("%s: harness %s produced no result (%s)" % (u["id"], hname, note or "not run / build error"))
             continue
         checks = r.get("checks", [])
-        stats = cb.get(hname, {}).get("cbmc_stats", {})
-        st = float(stats.get("runtime_decision_procedure_s", 0.0)) + float(stats.get("runtime_symex_s", 0.0))
+        stats = (cb.get(hname) or {}).get("cbmc_stats") or {}
+        st = float(stats.get("runtime_decision_procedure_s") or 0.0) + float(stats.get("runtime_symex_s") or 0.0)
         res.solver_time_s += st
         res.harness_stats[hname] = {
             "unit": u["id"], "status": r.get("status"), "duration_s": r.get("duration_ms", 0) / 1000.0,
-            "checks": len(checks), "solver": cb.get(hname, {}).get("configuration", {}).get("solver", "cadical"),
-            "solver_s": round(float(stats.get("runtime_decision_procedure_s", 0.0)), 3),
-            "symex_s": round(float(stats.get("runtime_symex_s", 0.0)), 3),
+            "checks": len(checks), "solver": ((cb.get(hname) or {}).get("configuration") or {}).get("solver") or "cadical",
+            "solver_s": round(float(stats.get("runtime_decision_procedure_s") or 0.0), 3),
+            "symex_s": round(float(stats.get("runtime_symex_s") or 0.0), 3),
             "level": h["level"], "bound": h["bound"],
         }
         res.kani_checks_total += len(checks)
